@@ -183,7 +183,10 @@ def r19_2(ck):
                 ok = key is None or (
                     isinstance(key, ast.Lambda) and isinstance(
                         key.body, ast.Subscript) and A.unparse(
-                        key.body.slice) == '0')
+                        key.body.slice) == '0') or (
+                    isinstance(key, ast.Call) and A.call_name(
+                        key) == 'itemgetter' and [
+                        A.unparse(a) for a in key.args] == ['0'])
                 rev = A.arg_of(c, None, 'reverse')
                 ok = ok and (rev is None or (isinstance(rev, ast.Constant)
                                              and rev.value is False))
